@@ -1145,3 +1145,102 @@ func rtEntrySemantics(a *aggregator, v *rtView) {
 	a.Decide(len(bad) == 0 && n >= 5, "R-entry-semantics", construct, v.in.Name, pos,
 		fmt.Sprintf("%d calls of Parse with no, one and two rule arguments, the last rule constant included: exactly the rule asked for runs (rule 1 by default)", n), strings.Join(bad, "; "))
 }
+
+// rtErrorStable: R-error-stable — an error returned by Parse is a value the
+// caller may keep: its message is the same whenever it is asked for, also after
+// the parser that produced it went on to another input (Buffer, Reset, Parse),
+// and producing it never panics. Init's closures and parseError.Error are
+// evaluated on a failing parse followed by shorter, longer and empty inputs.
+func rtErrorStable(a *aggregator, v *rtView) {
+	cfg := v.in.Name
+	construct := "parseError.Error gives the same message after its parser went on to another input"
+	pos := ""
+	if f := v.cl["p.parse"]; f != nil {
+		pos = v.in.srcPos(f.Pos())
+	}
+	type run struct {
+		text     string
+		branches [][]step
+		verdict  bool
+	}
+	firsts := []run{
+		{"abcdef", [][]step{{{2, 2, 0}, {5, 1, 2}}}, false},
+		{"ab\ncd\nef", [][]step{{{3, 2, 0}, {8, 1, 4}}}, false},
+	}
+	seconds := []run{
+		{"ab", [][]step{{{1, 2, 0}, {1, 1, 0}}}, true},
+		{"ab", [][]step{{{1, 2, 0}}}, false},
+		{"", nil, false},
+		{"", [][]step{{{0, 1, 0}}}, true},
+		{"xyzxyzxyzxyz", [][]step{{{7, 2, 0}, {12, 1, 0}}}, true},
+		{"x\n\n\nyzxyzxyz", [][]step{{{7, 2, 0}}}, false},
+	}
+	var bad []string
+	und := ""
+	n := 0
+	for _, f := range firsts {
+		for _, s := range seconds {
+			if und != "" {
+				break
+			}
+			func() {
+				stage := "right after the failed parse"
+				defer func() {
+					if p := recover(); p != nil {
+						switch x := p.(type) {
+						case nilDeref:
+							bad = append(bad, fmt.Sprintf("Error() of the error for %q dereferences nil at %s %s", f.text, x.pos, stage))
+						case goPanic:
+							bad = append(bad, fmt.Sprintf("Error() of the error for %q panics (%s at %s) %s", f.text, x.msg, x.pos, stage))
+						case undecided:
+							und = x.msg
+						default:
+							panic(p)
+						}
+					}
+				}()
+				ie, err := newInitEnvSize(v.in, f.text, false, -1)
+				if err != nil {
+					panic(undecided{err.Error()})
+				}
+				fd := ie.it.declOf("parseError.Error")
+				if fd == nil {
+					panic(undecided{"parseError.Error not found"})
+				}
+				if !ie.it.globalInit(instFiles(v.in), "rul3s") {
+					panic(undecided{"the rule-name table rul3s was not found"})
+				}
+				ie.setRule(1, f.branches, f.verdict)
+				res := ie.parse()
+				eo, ok := res.(*Obj)
+				if !ok || eo == nil {
+					panic(undecided{"Parse of a failing entry rule did not return an error value"})
+				}
+				m1, _ := ie.it.callDecl(fd, eo)[0].(string)
+				stage = fmt.Sprintf("after Buffer = %q, Reset and Parse", s.text)
+				ie.p.field("Buffer").v = s.text
+				ie.it.steps = 0
+				ie.it.callValue(nil, ie.p.field("reset").v, nil)
+				ie.setRule(1, s.branches, s.verdict)
+				ie.parse()
+				m2, _ := ie.it.callDecl(fd, eo)[0].(string)
+				n++
+				if m1 != m2 {
+					bad = append(bad, fmt.Sprintf("the error of the failed parse of %q reads %q; %s the same value reads %q", f.text, m1, stage, m2))
+				}
+			}()
+		}
+	}
+	if und != "" {
+		a.Und("R-error-stable", construct, cfg, pos, und)
+		return
+	}
+	sort.Slice(bad, func(i, j int) bool { return len(bad[i]) < len(bad[j]) })
+	bad = uniq(bad)
+	if len(bad) > 3 {
+		bad = append(bad[:3], fmt.Sprintf("… %d more", len(bad)-3))
+	}
+	a.Decide(len(bad) == 0 && n >= 12, "R-error-stable", construct, cfg, pos,
+		fmt.Sprintf("%d histories (a failed parse, then a shorter, longer or empty input on the same parser, succeeding or failing): the kept error value gives the same message before and after, without a panic", n),
+		strings.Join(bad, "; "))
+}
